@@ -541,7 +541,7 @@ fn gen_big(rng: &mut Rng, span: i64) -> G {
         }
         3 => {
             // many small members sharing one envelope row
-            let m = n / 8;
+            let m = *rng.pick(&[n / 8, 70, 130]);
             G::MultiPolygon(
                 (0..m)
                     .map(|k| {
